@@ -247,6 +247,49 @@ def impossible_inline_fragment(rng, doc, s):
     return True
 
 
+@operator("PossibleFragmentSpreadsChecker")
+def impossible_fragment_spread(rng, doc, s):
+    """A named fragment on an object type that cannot occur in the scope, spread there (the scope is
+    often the selection set of a list / non-null typed field)."""
+    cands = []
+    for sels, scope, owner in walk_selection_lists(doc, s):
+        mine = set(s.possible_types(scope))
+        others = [t.name for t in s.types.values() if t.kind == "object" and t.name not in mine]
+        if others:
+            cands.append((sels, others))
+    if not cands:
+        return None
+    sels, others = rng.choice(cands)
+    o = rng.choice(others)
+    name = "ImpossibleFragment%d" % len(doc.fragments)
+    doc.fragments[name] = opgen.OFragment(name, o, [opgen.OField("__typename", o)])
+    sels.insert(rng.randint(0, len(sels)), opgen.OSpread(name))
+    return True
+
+
+@operator("NoFragmentCyclesChecker")
+def fragment_cycle_behind_shared_fragment(rng, doc, s):
+    """A cycle of 2-4 fresh fragments in which members also spread a shared, already visited
+    fragment before (or after) the spread that closes the cycle."""
+    lists = list(walk_selection_lists(doc, s))
+    sels, scope, owner = rng.choice(lists)
+    n = rng.randint(2, 4)
+    base = len(doc.fragments)
+    names = ["Cycle%s%d" % ("ABCD"[i], base) for i in range(n)]
+    shared = "CycleShared%d" % base
+    doc.fragments[shared] = opgen.OFragment(shared, scope, [opgen.OField("__typename", scope)])
+    for i, nm in enumerate(names):
+        nxt = names[(i + 1) % n]
+        body = [opgen.OSpread(shared), opgen.OSpread(nxt)]
+        if rng.random() < 0.3:
+            body.reverse()
+        if rng.random() < 0.5:
+            body.insert(0, opgen.OField("__typename", scope))
+        doc.fragments[nm] = opgen.OFragment(nm, scope, body)
+    sels.append(opgen.OSpread(names[0]))
+    return True
+
+
 @operator("NoFragmentCyclesChecker")
 def fragment_cycle(rng, doc, s):
     if not doc.fragments:
